@@ -39,7 +39,9 @@ theorem within_of_leC {e e' : Enf} (lim : Limits) (h : LeC e e') (hw : Within (w
 
 theorem next_withLim (e : Enf) (lim : Limits) (ev : Raw) : next (withLim e lim) ev = withLim (next e ev) lim := by
   simp only [next, withLim]
-  by_cases hc : (e.perDocument && isDocStart ev) = true <;> simp [hc]
+  by_cases hc : (e.perDocument && isDocStart ev) = true
+  · simp [hc]
+  · by_cases hf : (e.perDocument && isStreamFrame ev) = true <;> simp [hc, hf]
 
 theorem next_leC {e : Enf} (ho : EnfOk e) (ev : Raw) : LeC e (next e ev) ∧ EnfOk (next e ev) := by
   obtain ⟨hpd, hb⟩ := ho
@@ -58,7 +60,8 @@ theorem observe_ok_balanced {e e' : Enf} {ev : Raw} (h : e.observe ev = .ok e') 
     e.depth ≠ 0 ∧ wf e.containers ev = true := by
   cases ev <;> simp [isEnd] at he
   all_goals
-    simp only [Enf.observe] at h
+    rw [observe_plain e rfl rfl] at h
+    simp only [Enf.observeCounted] at h
     split at h
     · cases h
     · split at h
@@ -82,6 +85,7 @@ theorem observe_withLim {e e' : Enf} {ev : Raw} (lim : Limits) (ho : EnfOk e) (h
   | error br =>
     exfalso
     have hs := observe_err h2
+    rw [pro_of_not_pd ev (by simpa [withLim] using hpd)] at hs
     simp only [Within, withLim, next, hpd, Bool.false_and, Bool.false_eq_true, if_false] at hw
     cases br <;> simp only [BreachSpec, withLim] at hs
     case events n => omega
